@@ -60,7 +60,7 @@ partial def pCV : P CV
       some (.map xs, r)
   | _ => none
 
-def pReq : P Req
+def pReq : P Reflect.Req
   | "d" :: r => some (.dflt, r)
   | "r" :: r => some (.required, r)
   | "o" :: r => some (.optional, r)
